@@ -15,9 +15,19 @@ use std::{
 use crate::io::{FatPage, IoCommand, IoHandle, IoKind};
 
 pub(super) fn write_wal(mut wal_fd: &File, wal_blob: &[u8]) -> std::io::Result<()> {
+    #[cfg(nomt_verif)]
+    crate::verif::io(wal_fd.as_raw_fd(), crate::verif::Op::SetLen(0), "wal.reset")?;
     wal_fd.set_len(0)?;
     wal_fd.seek(SeekFrom::Start(0))?;
+    #[cfg(nomt_verif)]
+    crate::verif::io(
+        wal_fd.as_raw_fd(),
+        crate::verif::Op::Append { data: wal_blob },
+        "wal.append",
+    )?;
     wal_fd.write_all(wal_blob)?;
+    #[cfg(nomt_verif)]
+    crate::verif::io(wal_fd.as_raw_fd(), crate::verif::Op::Fsync, "wal.fsync")?;
     wal_fd.sync_all()?;
     Ok(())
 }
@@ -26,9 +36,13 @@ pub(super) fn write_wal(mut wal_fd: &File, wal_blob: &[u8]) -> std::io::Result<(
 ///
 /// Conditionally syncs the file to disk.
 pub(super) fn truncate_wal(mut wal_fd: &File, do_sync: bool) -> std::io::Result<()> {
+    #[cfg(nomt_verif)]
+    crate::verif::io(wal_fd.as_raw_fd(), crate::verif::Op::SetLen(0), "wal.truncate")?;
     wal_fd.set_len(0)?;
     wal_fd.seek(SeekFrom::Start(0))?;
     if do_sync {
+        #[cfg(nomt_verif)]
+        crate::verif::io(wal_fd.as_raw_fd(), crate::verif::Op::Fsync, "wal.truncate_fsync")?;
         wal_fd.sync_all()?;
     }
     Ok(())
@@ -57,6 +71,8 @@ pub(super) fn write_ht(
         sent -= 1;
     }
 
+    #[cfg(nomt_verif)]
+    crate::verif::io(ht_fd.as_raw_fd(), crate::verif::Op::Fsync, "ht.fsync")?;
     ht_fd.sync_all()?;
 
     Ok(())
